@@ -51,6 +51,8 @@
 #include <vector>
 #include <map>
 
+#include "verif_hooks.hpp"
+
 /**
  * Return true if _container_ contains _value_.
  */
@@ -127,6 +129,9 @@ std::vector<int> draw_n_from_v(std::vector<int> v, unsigned n, Generator& genera
 
     std::shuffle(v.begin(), v.end(), generator);
     v.erase(v.begin() + n, v.end());
+#ifdef POPS_CORE_VERIF
+    POPS_VERIF_EVENT_V("draw", generator, v);
+#endif
     return v;
 }
 
